@@ -32,9 +32,6 @@ Definition flag (code : Z) (ok : bool) : list Z := if ok then [] else [code].
 Definition opt_eqb (m : option (list Z)) (o : list Z) : bool :=
   match m with Some x => zlist_eqb x o | None => false end.
 
-(* any deterministic stand-in for np.random.choice; only used where it is never called *)
-Definition choose0 (_ : nat) (ids : list Z) (m : Z) : list Z := firstn (Z.to_nat m) ids.
-
 Definition grid_ok (grid : list Z) (k : Z) : bool :=
   (1 <=? k) && (1 <=? zlen grid) && sortedZb grid.
 
